@@ -206,6 +206,8 @@ type ReplayFile struct {
 	LogHash   string    `json:"log_hash"`
 	Trace     []string  `json:"trace,omitempty"`
 	Toolchain string    `json:"toolchain"`
+	Worker    int       `json:"worker"`
+	NWorkers  int       `json:"nworkers"`
 	Minimised bool      `json:"minimised"`
 	OrigTape  int       `json:"original_tape_len"`
 }
